@@ -242,6 +242,14 @@ class PathCtx:
         if name:
             self.assumptions_used.append(name)
 
+    def constrain(self, cond):
+        """Add a path-defining condition (kind 'B'): which alternative of a summarised construct was taken."""
+        cond = simp(cond) if not isinstance(cond, bool) else z3.BoolVal(cond)
+        if z3.is_true(cond):
+            return
+        self.pc.append(cond)
+        self.kinds.append("B")
+
     def branch(self, cond):
         """Decide a symbolic condition; returns Python bool. Adds the taken side to the path condition."""
         if isinstance(cond, bool):
@@ -304,11 +312,13 @@ class PathCtx:
 
 
 class PathResult:
-    __slots__ = ("pc", "state", "outcome", "value", "obligations", "assumptions", "decisions", "branches", "assumes")
+    __slots__ = ("pc", "state", "outcome", "value", "obligations", "assumptions", "decisions", "branches", "assumes",
+                 "kinds")
 
     def __init__(self, pc, state, outcome, value, obligations, assumptions, decisions, kinds=None):
         self.pc = pc
         kinds = kinds or ["B"] * len(pc)
+        self.kinds = list(kinds)
         self.branches = [c for c, k in zip(pc, kinds) if k != "A"]
         self.assumes = [c for c, k in zip(pc, kinds) if k == "A"]
         self.state = state
